@@ -437,3 +437,118 @@ def c08(run):
 
 
 MODES["C08"] = "expr"
+
+
+# ------------------------------------------------------------------ C05 / C19 (Syntax.tla)
+def syntax_corpus(run, scenarios, simulate=None):
+    """Generates the texts of the given Syntax.tla scenarios and replays them; returns (records, results)."""
+    all_recs, all_res = [], []
+    for sc in scenarios:
+        nd, n, st = tlc_gen("MCSyntax.tla", "Syntax_%s.cfg" % sc, "%s-%s" % (run.pid, sc), workers=4, timeout=1700, dedup=True)
+        st["scenario"] = sc
+        run.add_model(st)
+        recs, res = feed(run, "syntax", nd, key=lambda r: r["text"], sig_of=lambda rec, r, v: v.get("kind"))
+        all_recs += recs
+        all_res += res
+    if simulate:
+        nd, n, st = tlc_gen("MCSyntax.tla", "Syntax_random.cfg", "%s-random" % run.pid, simulate=simulate, seed=run.seed, timeout=1700)
+        st["scenario"] = "random (simulation)"
+        run.add_model(st)
+        recs, res = feed(run, "syntax", nd, key=lambda r: r["text"], keep=lambda r: r["expect"], sig_of=lambda rec, r, v: v.get("kind"))
+        all_recs += recs
+        all_res += res
+    # RenderInjective on the emitted corpus: one text never carries two different abstract entry lists
+    seen = {}
+    for r in all_recs:
+        e = json.dumps(r["expect"], sort_keys=True)
+        if seen.setdefault(r["text"], e) != e:
+            raise ToolError("generator defect: the text %r is a rendering of two different entry lists" % r["text"][:200])
+    return all_recs, all_res
+
+
+SYNTAX_ASSUME = [
+    "texts are renderings of spec/Syntax.tla's abstract entries under a style record that picks one alternative wherever doc/syntax.md allows variation; only unambiguous texts are generated (RenderInjective is checked on the corpus)",
+    "free text (payee, comments, notes, tag values) is compared after trimming blanks; `-x` for a literal x is the same entry as the literal -x",
+    "number spellings come from a catalogue that an ASSUME ties to Literal.tla (canonical spelling, mantissa, scale, format)",
+]
+
+
+@check("C05")
+def c05(run):
+    run.rule = ("spec/Syntax.tla catalogue: 29 posting shapes (x first/second position), 12 header shapes, 14 directives = 83 entries; scenarios: "
+                "features (base style), styles (each entry x 35 style variations, one grammar alternative varied at a time incl. CRLF, tabs, tight "
+                "operators/assertions/costs, every comment prefix, hyphen dates, trailing blanks, inline metadata, last line ended by end of file), "
+                "files (3-entry files x blank-line styles: none, two, lines of blanks); thorough adds TLC simulation with all dimensions drawn "
+                "independently; non-trivial = every text (each is parsed, formatted, re-parsed, re-formatted)")
+    run.assumptions += SYNTAX_ASSUME
+    quick = run.tier == "quick"
+    run.add_model(tlc_check("MCSyntax.tla", "Syntax_layout_small.cfg", workers=4, coverage=False))
+    recs, res = syntax_corpus(run, ["features", "styles", "files"], simulate={"num": 100 if quick else 2000, "depth": 40})
+    run.exhaustive = True
+
+
+def layout_trace(run, recs, res):
+    """Binding B for C19: the layout observations of every formatted text are checked by TLC against Syntax.tla's predicates."""
+    from vlib import run_tlc, parse_stats
+    tr = os.path.join(WORK, "%s-layout.ndjson" % run.pid)
+    owner = []
+    with open(tr, "w") as f:
+        for i, r in enumerate(res):
+            for o in r.get("layout") or []:
+                o = dict(o)
+                o.setdefault("entries", 0); o.setdefault("blanks", 0); o.setdefault("doubleBlank", False); o.setdefault("leadingBlank", False)
+                f.write(json.dumps(o) + "\n")
+                owner.append(i)
+    if not owner:
+        raise ToolError("no layout observation recorded")
+    rc, out, secs = run_tlc("../SyntaxLayoutTrace.tla", "SyntaxLayoutTrace.cfg", workers=1, timeout=1500, env_extra={"TRACE": tr},
+                            java_extra="-Xss1g -Dtlc2.tool.queue.IStateQueue=StateDeque")
+    st = parse_stats(out) or {"distinct": 0, "generated": 0}
+    if rc != 0 or "No error has been found" not in out:
+        sys.stderr.write(out[-3000:])
+        raise ToolError("layout trace validation did not complete (rc=%s)" % rc)
+    run.add_model({"module": "SyntaxLayoutTrace.tla", "cfg": "SyntaxLayoutTrace.cfg", "states": st["distinct"], "transitions": st["generated"],
+                   "seconds": round(secs, 1), "observations": len(owner)})
+    kinds = {}
+    lines = [json.loads(l) for l in open(tr)]
+    for m in re.finditer(r'<<"LAYOUT-VIOLATION", (\d+), \{([^}]*)\}>>', out):
+        idx = int(m.group(1)) - 1
+        preds = [x.strip().strip('"') for x in m.group(2).split(",")]
+        i = owner[idx]
+        for pr in preds:
+            rec2 = dict(recs[i]); rec2["_mode"] = "syntax"
+            run.report(pr, rec2, {"observation": lines[idx]}, "%s: formatted line %s violates %s: %s" % (pr, lines[idx].get("line"), pr, json.dumps(lines[idx])))
+    run.traces += len(owner)
+    run.extra["layout_observations"] = len(owner)
+    by = {}
+    for o in lines:
+        by[o["kind"]] = by.get(o["kind"], 0) + 1
+    run.extra["layout_observations_by_kind"] = by
+    applicable = {"Column52": sum(1 for o in lines if o["kind"] == "posting" and o["numEnd"] >= 0 and o["w"] + o["numEnd"] + 2 <= 48),
+                  "Column52_not_applicable_long_account": sum(1 for o in lines if o["kind"] == "posting" and o["numEnd"] >= 0 and o["w"] + o["numEnd"] + 2 > 48),
+                  "AssertOnlyAligned": sum(1 for o in lines if o["kind"] == "posting" and o["eqTrail"] >= 0 and o["w"] + 2 <= 49 + o["eqTrail"]),
+                  "Gap2": sum(1 for o in lines if o["kind"] == "posting" and o["hasValue"])}
+    run.extra["layout_predicates_applicable"] = applicable
+    for k, v in applicable.items():
+        if v == 0:
+            raise ToolError("layout predicate %s never applicable in this corpus (vacuous)" % k)
+
+
+@check("C19")
+def c19(run):
+    run.rule = ("layout scenario of spec/Syntax.tla: accounts of every display width 1..60 (ASCII and East-Asian wide, with and without clear mark) x "
+                "numbers of 1/3/7/12 integer digits, 0/2 decimals, both signs; lot + cost + assertion around the boundary widths 38..50; "
+                "assertion-only postings for every width; plus the C05 feature catalogue; each text is formatted by okane and every output line "
+                "is abstracted into a layout observation checked by TLC (SyntaxLayoutTrace.tla); non-trivial = posting lines with a value")
+    run.assumptions += SYNTAX_ASSUME + ["display width is computed by the harness' own table (East-Asian Wide ranges = 2 columns), not by unicode-width",
+                                        "`short enough` is read as: the rule can be met with at least two spaces (W + numeric part + 2 <= 48)",
+                                        "the column rule is evaluated for amounts that start with a commodity-bearing literal; expressions only have to keep indent and gap"]
+    run.add_model(tlc_check("MCSyntax.tla", "Syntax_layout_small.cfg", workers=4, coverage=False))
+    recs, res = syntax_corpus(run, ["layout", "features"] + ([] if run.tier == "quick" else ["styles"]),
+                              simulate=None if run.tier == "quick" else {"num": 500, "depth": 40})
+    layout_trace(run, recs, res)
+    run.nontrivial = set(i for i, r in enumerate(res) if any(o.get("kind") == "posting" and o.get("hasValue") for o in (r.get("layout") or [])))
+    run.exhaustive = True
+
+
+MODES.update({"C05": "syntax", "C19": "syntax"})
